@@ -53,7 +53,12 @@ type Case struct {
 	Value    string   `json:"value"`    // which panic value
 	Progress string   `json:"progress"` // none, informational, header, body
 	Headers  []Header `json:"headers"`
+	// First: for updates-body, the first write of the transaction (before the Cut registrations): "" none, "truncate-get",
+	// "truncate-post-get", "truncate-all", "update", "delete"
+	First string `json:"first,omitempty"`
 }
+
+var firsts = []string{"", "", "truncate-get", "truncate-post-get", "truncate-all", "update", "delete"}
 
 type custom struct{ A int }
 
@@ -169,6 +174,18 @@ func checkCase(c *Case) (err error) {
 		switch c.Where {
 		case "updates-body":
 			_ = f.Updates(func(txn *fox.Txn) error {
+				switch c.First {
+				case "truncate-get":
+					_ = txn.Truncate("GET")
+				case "truncate-post-get":
+					_ = txn.Truncate("POST", "GET")
+				case "truncate-all":
+					_ = txn.Truncate()
+				case "update":
+					_, _ = txn.Update("GET", "/ok/{id}", func(fox.Context) {})
+				case "delete":
+					_, _ = txn.Delete("POST", "/only-post")
+				}
 				for i := 0; i < c.Cut; i++ {
 					if _, err := txn.Handle("GET", fmt.Sprintf("/uncommitted/%d", i), func(fox.Context) {}); err != nil {
 						return err
@@ -394,6 +411,7 @@ func genCase(t *rapid.T) *Case {
 	}
 	if c.Where == "updates-body" {
 		c.Cut = gen.IntR(t, 0, 4, "cut")
+		c.First = gen.Pick(t, firsts, "first")
 	}
 	n := gen.IntR(t, 0, 6, "nheaders")
 	for i := 0; i < n; i++ {
@@ -447,6 +465,9 @@ func TestExhaustive(t *testing.T) {
 						continue
 					}
 					c := &Case{Kind: kw[0], Where: kw[1], Cut: cut, Value: v, Progress: p, Headers: hs}
+					if kw[1] == "updates-body" {
+						c.First = firsts[(cut+len(v)+len(p))%len(firsts)]
+					}
 					stats.Eval()
 					stats.NonTrivial(fmt.Sprintf("exh|%+v", *c))
 					if err := checkCase(c); err != nil {
